@@ -132,5 +132,52 @@ PROPS.update({
     },
 })
 
+PROPS.update({
+    "C07": {
+        "module": "otap", "level": "fault_enumeration",
+        "technique": "fault enumeration inside a rapid property: every single payload-level fault on every payload of the damaged batch of each generated session, plus generated fault combinations; validity-predicate oracle",
+        "level_text": "For each generated session (valid prefix of 0-3 batches from producer P1 so the consumer holds reader/dictionary state, the damaged batch, 0-2 follow-up producers on fresh renamed sub-streams) EVERY single fault - relabel to each of the 32 enum/undefined payload types, drop, duplicate (appended and adjacent), empty, unknown schema id, stale (retired) schema id, swap with each other payload - is applied to every payload and run against a fresh real consumer; random pairs/triples follow, also on follow-up producers. Oracle: no panic (recover wrapper, Close included); success with an untouched main payload returns as many items as the main record has rows; unaltered batches on intact sub-streams decode to canon(input).",
+        "design_ref": "DESIGN.md §7 C07",
+        "rule": "sessions are rapid-generated (signal, depth, canned-or-generated batches, follow-up producers); within a session single faults are enumerated exhaustively and 4-12 random combinations drawn; evaluations = damaged-batch decodes; NON-TRIVIAL = every applied fault except a stale-id fault without any valid prefix; DISTINCT = FNV-64 of (signal, prefix depth, fault kind, payload type hit) resp. (signal, depth, sorted kinds of the combination)",
+        "assumptions": [
+            "faults that splice IPC bytes between sub-streams are outside the domain: after a drop/empty/duplicate/re-id the same producer sends nothing more; follow-ups come from fresh producers with renamed schema ids; re-id to another LIVE id is not generated",
+            "weakest reading of 'a main record that was present': only when no fault touched the main payload is the item count demanded",
+            "single faults are exhaustive per session; sessions and combinations are sampled",
+        ],
+        "jobs": {
+            "quick": [{"test": "TestC07", "shards": 8, "checks": 48, "timeout": 900}],
+            "thorough": [{"test": "TestC07", "shards": 16, "checks": 1600, "timeout": 3300}],
+        },
+    },
+    "C14": {
+        "module": "otap", "level": "fault_enumeration",
+        "technique": "fault enumeration over a memory-limit grid inside a rapid property: differential against an unlimited consumer, errors.Is oracle, recording MeterProvider bound, monotonicity in the limit",
+        "level_text": "The injected fault is the memory limit. For every generated stream a grid of limits (0 B .. 70 MiB geometric, values around the need measured per prefix, random extras) is enumerated, each with a fresh limited consumer and a recording MeterProvider: every batch either decodes to the canonical output of the unlimited reference or is refused with errors.Is(err, ErrConsumerMemoryLimit); no panic; the running sum of arrow_memory_inuse never exceeds the limit; the index of the first refused batch is non-decreasing in the limit.",
+        "design_ref": "DESIGN.md §7 C14",
+        "rule": "rapid draws options and a 1-6 batch history; about 40 limits are enumerated per stream; evaluations counts streams, label stream_limit_pairs counts (stream, limit) runs; NON-TRIVIAL = the stream was fully decoded under some limits and refused under others; DISTINCT = FNV-64 of (options, batches, #limits refusing, #limits passing)",
+        "assumptions": [
+            "comparison stops at the first refusal of a consumer (reader state is undefined afterwards)",
+            "the producer side runs without limit; batches the producer refuses end the stream",
+            "in-use is what the consumer publishes on the supplied MeterProvider, observed at every Add",
+        ],
+        "jobs": {
+            "quick": [{"test": "TestC14", "shards": 8, "checks": 400, "timeout": 900}],
+            "thorough": [{"test": "TestC14", "shards": 16, "checks": 12000, "timeout": 3300}],
+        },
+    },
+    "C16": {
+        "module": "otap", "level": "exploration",
+        "technique": "metamorphic property (rapid): sequential vs concurrent execution of generated groups of producer/consumer pairs, under the Go race detector",
+        "level_text": "Generated groups of 2-8 (options, history) pairs are run alone to obtain reference per-batch outcomes and canonical outputs, then all at once from a barrier in a -race build: every stream must produce exactly what it produces alone and the race detector must stay silent (GORACE=halt_on_error: a report ends the process and the driver reports the case saved before execution). Real-scheduler interleavings are sampled, not enumerated.",
+        "design_ref": "DESIGN.md §7 C16",
+        "rule": "rapid draws 2-8 streams, each options x 1-5 batch interleaved-signal history (half of the groups share one option set); all cases NON-TRIVIAL (>=2 concurrent streams); DISTINCT = FNV-64 of the sorted (options, batches) vector",
+        "assumptions": ["interleavings are whatever the Go scheduler produces on 16 cores; the race detector sees only executed paths", "no absence proof"],
+        "jobs": {
+            "quick": [{"test": "TestC16", "shards": 8, "checks": 160, "timeout": 900, "race": True}],
+            "thorough": [{"test": "TestC16", "shards": 16, "checks": 5600, "timeout": 3300, "race": True}],
+        },
+    },
+})
+
 # Properties not claimed (yet), with the reason recorded in MANIFEST.not_applicable.
 NOT_CLAIMED = {}
